@@ -1,19 +1,21 @@
 SPECIFICATION Spec
 CONSTANTS
-    Mode = "edges"
+    Mode = "mc"
     Depth = 0
     Kinds = {"unary", "prod", "exch"}
-    MaxN = 2
-    Limits = {1, 2}
+    MaxN = 3
+    Limits = {1, 2, 3}
     InitErrs = {FALSE, TRUE}
     Inputs = {"ok", "drift"}
     Decls = {TRUE, FALSE}
     FaultKinds = {"neterr", "reset", "timeout", "oversize_enc", "trunc_read", "enc_unknown", "enc_wrong", "oversize_dec", "status", "corrupt", "trunc", "schema_drift", "trunc_msg", "trailing", "rpcerr_hdr", "missing_cursor"}
-    MaxPerTurn = 1
+    MaxPerTurn = 2
     MaxFaults = 99
-    MaxCur = 4
+    MaxCur = 5
     OpenFaults = TRUE
-    RequireEOS = FALSE
-    ExcFirst = FALSE
+    RequireEOS = TRUE
+    ExcFirst = TRUE
 VIEW View
+INVARIANTS TypeOK DeliveredIsPrefix CleanEndIsComplete NoCursorTwice
+PROPERTIES ReturnedBatches TypedErrors RefusesAfterAmbiguous AmbiguityIsRecorded DamagedIsRejected
 CHECK_DEADLOCK FALSE
